@@ -222,7 +222,9 @@ def _process_and_check_data(data):
     elif isinstance(data, dict) and all(
         isinstance(i, pd.Series) for i in data.values()
     ):
-        pass
+        # Work on a shallow copy: type conversion replaces entries of this dictionary and
+        # must not write them into the dictionary the caller holds.
+        data = dict(data)
     else:
         raise NotImplementedError(
             "'data' is not a pd.DataFrame or a pd.Series or a dictionary of pd.Series."
